@@ -4,7 +4,7 @@ package header
 // C16: header rewrite rules — parser, printer, application.
 //
 //vf:assume C16: rule strings, header names and values are ASCII (bytes < 0x80)
-//vf:assume C16-parse: rule strings of length 0..6 (quick) / 0..9 (thorough); longer rules are outside the claim
+//vf:assume C16-parse: rule strings of length 0..6 (quick) / 0..7 (thorough; 0..9 did not finish in 25 minutes); longer rules are outside the claim
 //vf:assume C16-parse: accept/reject equivalence with the reference grammar is asserted only for strings without CR/LF; for every string "accepted => legal field, consistent shape, prints back to itself" is asserted
 
 import (
@@ -73,7 +73,7 @@ func vfSpecParse(val string) (name string, action Action, value string, ok bool)
 func vfH_C16_parse() {
 	max := 6
 	if vfrt.Thorough() {
-		max = 9
+		max = 7 // 9 did not finish in 25 minutes
 	}
 	n := vfrt.Choice("len", max+1)
 	val := vfrt.String("rule", n)
